@@ -219,6 +219,8 @@ def run(tier):
     # the converse direction (a value placed in a tree prints to text that denotes it): the identifier lemmas are shared with C01
     os.environ['VERIF_STRLEN'] = '4' if tier == 'quick' else '5'
     ch_obligations(run, print_side()[0], print_side()[1], cond_to=150 if tier == 'quick' else 900)
+    from harness import C01
+    C01.ident_boundary(run, name='print-side:ident_atom[native boundary alphabet]')
     run.finish()
 
 
